@@ -221,7 +221,7 @@ func runClientConnExecution(t *testing.T, seed int64, log *traceLog) {
 			}
 		}
 		// reaction profile of this execution
-		profile := rng.Intn(5)
+		profile := rng.Intn(6)
 		npeers := len(srv.peers)
 		if profile == 4 {
 			npeers = 2 // the same peers again and again, while the server never answers ChannelBind
@@ -240,6 +240,12 @@ func runClientConnExecution(t *testing.T, seed int64, log *traceLog) {
 			case 4: // deaf to ChannelBind: every such transaction loses all its transmissions
 				if method == "ChannelBind" && x < 92 {
 					return "silent"
+				}
+
+				return "ok"
+			case 5: // a storm of stale nonces: most requests are answered 438, often three times in a row
+				if x < 80 {
+					return "438"
 				}
 
 				return "ok"
